@@ -7,7 +7,7 @@ import re
 
 from . import common as cm
 
-REQ = ["Rename.Replace", "Rename.WordSub", "Rename.Wire"]
+REQ = ["Rename.Replace", "Rename.WordSub", "Scope.PySyntax", "Scope.PySem", "Rename.Program", "Rename.Wire"]
 ANCHORS = ["pyflyby._importstmt:Import.replace", "pyflyby._importstmt:Import.from_parts",
            "pyflyby._imports2s:transform_imports", "pyflyby._imports2s:canonicalize_imports"]
 
@@ -110,10 +110,358 @@ def gen_cases(ctx, n):
         elif k < 8:
             na = (k == 7)
             cases.append({"kind": "text", "i": i, "map": m, "text": gen_text(r, m, na)})
-        else:
-            via = "canon" if (i % 20 == 19 and all(o != n for o, n in m)) else "transform"
+        elif k < 9:
+            via = "canon" if (i % 20 == 18 and all(o != n for o, n in m)) else "transform"
             cases.append({"kind": "program", "via": via, "i": i, "map": m, "src": gen_program(r, m)})
+        elif i % 20 == 19:
+            cases.append(gen_flat_case(r, i))
+        else:
+            xm = gen_exec_map(r)
+            hazard = (i % 50 == 9)
+            cases.append({"kind": "exec", "i": i, "map": xm, "hazard": hazard, "src": gen_exec_program(r, xm, hazard)})
     return cases
+
+
+# ---------------------------------------------------------------------------------------------
+# execution oracle: programs run before / after transform_imports in an import universe where NEW paths
+# denote the same objects as OLD paths
+
+X_OLD_ROOTS = ["pkg", "m", "aa"]
+X_NEW_ROOTS = ["zz", "mm", "nn"]
+X_SUBS = ["sub", "s2", "qq", "tt"]
+X_VALS = ["f", "g", "h", "k"]
+
+
+def gen_exec_map(r):
+    """1-2 entries; OLD under an old root, NEW under a new root (or a sibling of OLD); sometimes nested keys"""
+    def path(root, lo, hi):
+        return ".".join([root] + [r.choice(X_SUBS) for _ in range(r.randint(lo, hi))])
+    roots = r.sample(X_OLD_ROOTS, 2)
+    nroots = r.sample(X_NEW_ROOTS, 2)
+    old = path(roots[0], 0, 2)
+    k = r.random()
+    new = path(nroots[0], 0, 2) if k < .75 else old.rsplit(".", 1)[0] + "." + r.choice(["n1", "n2"]) if "." in old else nroots[0]
+    m = [[old, new]]
+    k = r.random()
+    if k < .25:                                         # an independent second entry
+        m.append([path(roots[1], 0, 1), path(nroots[1], 0, 1)])
+    elif k < .45:                                       # nested keys: a.b -> x together with a.b.c -> y
+        ext = [old + "." + r.choice(X_SUBS), path(nroots[1], 0, 1)]
+        m = [m[0], ext] if r.random() < .5 else [ext, m[0]]
+    return m
+
+
+def gen_exec_program(r, m, hazard):
+    """imports (top level) of / under the OLD paths, then code that reaches OLD only through them"""
+    imps, body = [], []
+    nvar = [0]
+
+    def var():
+        nvar[0] += 1
+        return "v%d" % nvar[0]
+
+    def use(expr):
+        """a few ways to use an expression that denotes a module or a value"""
+        k = r.random()
+        val = r.choice(X_VALS)
+        if k < .3:
+            return ["%s = %s.%s(1)" % (var(), expr, val)]
+        if k < .5:
+            return ["%s.%s.%s" % (expr, val, r.choice(X_VALS))]
+        if k < .7:
+            fn = "fn%d" % (nvar[0] + 1)
+            return ["def %s(a=None):" % fn, "    return %s.%s" % (expr, val), "%s = %s()" % (var(), fn)]
+        if k < .85:
+            return ["%s = [%s.%s for _i in (1, 2)]" % (var(), expr, val)]
+        return ["%s = (%s.%s, 2)" % (var(), expr, val)]
+
+    for old, _new in m:
+        for _ in range(r.randint(1, 3)):
+            k = r.random()
+            if k < .3:                                  # import OLD[.sub]
+                p_ = old + ("." + r.choice(X_SUBS) if r.random() < .4 else "")
+                imps.append("import %s" % p_)
+                body += use(p_ if r.random() < .7 else old)
+            elif k < .5:                                # from OLD[.sub] import value [as alias]
+                p_ = old + ("." + r.choice(X_SUBS) if r.random() < .3 else "")
+                val = r.choice(X_VALS)
+                al = val if r.random() < .6 else "al%d" % len(imps)
+                imps.append("from %s import %s%s" % (p_, val, "" if al == val else " as " + al))
+                body.append("%s = %s(%s)" % (var(), al, r.choice(["1", "'s'", ""])))
+            elif k < .7:                                # import OLD as alias
+                al = "al%d" % len(imps)
+                imps.append("import %s as %s" % (old, al))
+                body += use(al)
+            elif k < .85 and "." in old:                # from PARENT import LAST [as alias]   (fullname == OLD)
+                par, last = old.rsplit(".", 1)
+                al = last if r.random() < .5 else "al%d" % len(imps)
+                imps.append("from %s import %s%s" % (par, last, "" if al == last else " as " + al))
+                body += use(al)
+            else:                                       # from OLD import submodule
+                sub = r.choice(X_SUBS)
+                al = "al%d" % len(imps)
+                imps.append("from %s import %s as %s" % (old, sub, al))
+                body += use(al)
+    if r.random() < .5:
+        imps.append(r.choice(["import other.thing", "from other import z", "import other"]))
+        body.append(r.choice(["%s = 1" % var(), "pkg_subx = 3", "%s = 'text'" % var()]))
+    if hazard:                                          # outside the property's domain (unclaimed stream)
+        old = m[0][0]
+        root = old.split(".")[0]
+        k = r.random()
+        if k < .4 and "." in old:
+            imps.append("import %s" % root)
+            body.append("%s = %s.%s" % (var(), old, r.choice(X_VALS)))
+        elif k < .7:
+            body += ["def hz():", "    import %s" % old, "    return %s.%s" % (old, r.choice(X_VALS)), "%s = hz()" % var()]
+        elif "." in old:
+            imps.append("import %s" % old)
+            body.append("%s = %s.__name__" % (var(), root))
+        else:
+            body.append("%s = '%s'" % (var(), old))
+    r.shuffle(imps)
+    # keep at most two import blocks: some imports first, a statement, the rest
+    cut = r.randint(0, len(imps))
+    lines = imps[:cut] + (["_sep = 0"] if 0 < cut < len(imps) else []) + imps[cut:] + body
+    return "\n".join(lines) + "\n"
+
+
+def run_aliased(src, m):
+    """execute src under the aliasing universe; returns the observables"""
+    import importlib
+    import importlib.abc
+    import importlib.machinery
+    import sys
+    import types
+    log = []
+    inv = [(new, old) for old, new in m]
+
+    def canon(name):
+        for _ in range(4):
+            for new, old in sorted(inv, key=lambda p: -len(p[0])):
+                if name == new or name.startswith(new + "."):
+                    name = old + name[len(new):]
+                    break
+            else:
+                break
+        return name
+
+    class V:
+        def __init__(s, tag):
+            object.__setattr__(s, "_tag", tag)
+        def __getattr__(s, n):
+            if n.startswith("__"):
+                raise AttributeError(n)
+            log.append([s._tag, "." + n])
+            return V(s._tag + "." + n)
+        def __call__(s, *a, **k):
+            log.append([s._tag, "(%d)" % len(a)])
+            return V(s._tag + "()")
+
+    class VMod(types.ModuleType):
+        def __getattr__(s, n):
+            if n.startswith("__") or n in X_SUBS or n in ("n1", "n2", "thing"):
+                raise AttributeError(n)        # a submodule that nothing imported: as a real package
+            return V(canon(s.__name__) + ":" + n)
+
+    roots = set(X_OLD_ROOTS + X_NEW_ROOTS + ["other"])
+
+    class Finder(importlib.abc.MetaPathFinder, importlib.abc.Loader):
+        def find_spec(self, name, path=None, target=None):
+            if name.split(".")[0] in roots:
+                return importlib.machinery.ModuleSpec(name, self, is_package=True)
+        def create_module(self, spec):
+            mod = VMod(spec.name)
+            mod.__path__ = []
+            return mod
+        def exec_module(self, module):
+            pass
+
+    def tag(v):
+        if isinstance(v, V):
+            return "V:" + v._tag
+        if isinstance(v, VMod):
+            return "M:" + canon(v.__name__)
+        if isinstance(v, (list, tuple)):
+            return [tag(x) for x in v]
+        if isinstance(v, types.FunctionType):
+            return "func"
+        return repr(v)
+
+    g = {"__name__": "prog"}
+    finder = Finder()
+    saved = set(sys.modules)
+    sys.meta_path.insert(0, finder)
+    exc = None
+    try:
+        try:
+            exec(compile(src, "<p>", "exec"), g)
+        except BaseException as e:
+            exc = type(e).__name__ + ": " + str(e)[:100]
+        skip = roots | {"__name__", "__builtins__"}
+        fin = {k: tag(v) for k, v in g.items() if k not in skip and not k.startswith("__")}
+        return {"exc": exc, "log": log[:500], "final": fin}
+    finally:
+        sys.meta_path.remove(finder)
+        for k in set(sys.modules) - saved:
+            del sys.modules[k]
+
+
+# ---------------------------------------------------------------------------------------------
+# module-level programs as terms (closed mode for Rename/Program.v): rendered to Python, renamed by the real
+# transform_imports and executed; the model renames the term and resolves every read (PySem)
+
+F_NAMES = ["pkg", "m", "aa", "zz", "mm", "other", "sub", "s2", "qq", "tt", "f", "g", "h", "k", "t1", "t2", "t3", "al1", "al2", "al3"]
+F_ID = {n: 10 + 7 * k for k, n in enumerate(F_NAMES)}
+
+
+def gen_flat_case(r, i):
+    roots_old, roots_new = ["pkg", "m", "aa"], ["zz", "mm"]
+    subs, vals = ["sub", "s2", "qq", "tt"], ["f", "g", "h", "k"]
+    old = [r.choice(roots_old)] + [r.choice(subs) for _ in range(r.choice([0, 1, 1, 2]))]
+    k = r.random()
+    new = ([r.choice(roots_new)] + [r.choice(subs) for _ in range(r.choice([0, 1, 1]))]) if k < .8 else old[:-1] + ["qq" if old[-1] != "qq" else "tt"]
+    if new == old:
+        new = ["zz"]
+    stmts = []
+    aliases = []
+    plain = []
+    ln = 0
+    for _ in range(r.randint(2, 7)):
+        ln += 1
+        k = r.random()
+        if k < .22:                                      # import a.b[.c]
+            d = (old + [r.choice(subs)] if r.random() < .3 else old) if r.random() < .7 else \
+                r.choice([[old[0]], ["other"], old[:-1] + ["s2"], [old[0], "tt"]])
+            d = [x for x in d if x]
+            stmts.append(["import", ln, [[d, None]]])
+            plain.append(d)
+        elif k < .32:                                    # import a.b as c
+            d = old if r.random() < .7 else ["other", "sub"]
+            a = r.choice(["al1", "al2", "al3"])
+            stmts.append(["import", ln, [[d, a]]])
+            aliases.append(a)
+        elif k < .52:                                    # from a.b import x [as y]
+            m_ = old if r.random() < .6 else (old[:-1] if len(old) > 1 and r.random() < .7 else ["other"])
+            x = r.choice(vals) if (m_ == old or r.random() < .5) else (old[-1] if m_ == old[:-1] else r.choice(subs))
+            a = None if r.random() < .5 else r.choice(["al1", "al2", "al3"])
+            stmts.append(["from", ln, m_, [[x, a]]])
+            aliases.append(a or x)
+        elif k < .62:
+            t = r.choice(["t1", "t2", "t3"])
+            stmts.append(["assign", ln, t, gen_loads(r, old, plain, aliases + [t])])
+            aliases.append(t)
+        else:
+            stmts.append(["expr", ln, gen_loads(r, old, plain, aliases)])
+    return {"kind": "flat", "i": i, "old": old, "new": new, "stmts": stmts}
+
+
+def gen_loads(r, old, plain, names):
+    out = []
+    for _ in range(r.randint(1, 3)):
+        k = r.random()
+        if k < .45 and plain:
+            d = r.choice(plain)
+            out.append([d[0], d[1:] + [r.choice(["f", "g"])]])
+        elif k < .6:
+            out.append([old[0], old[1:] + [r.choice(["f", "h"])]])        # may be unbound: outside the domain
+        elif k < .7:
+            out.append([old[0], [r.choice(["f", "tt"])]])                 # the root of OLD, not through OLD
+        elif names:
+            out.append([r.choice(names), [r.choice(["f", "k"])] if r.random() < .5 else []])
+        else:
+            out.append(["other", []])
+    return out
+
+
+def render_flat(stmts):
+    lines = []
+    for st in stmts:
+        if st[0] == "import":
+            lines.append("import " + ", ".join(".".join(d) + ("" if a is None else " as " + a) for d, a in st[2]))
+        elif st[0] == "from":
+            lines.append("from %s import %s" % (".".join(st[2]), ", ".join(x + ("" if a is None else " as " + a) for x, a in st[3])))
+        else:
+            loads = st[3] if st[0] == "assign" else st[2]
+            e = "(" + ", ".join(".".join([n] + at) for n, at in loads) + ",)"
+            lines.append(("%s = %s" % (st[2], e)) if st[0] == "assign" else e)
+    return "\n".join(lines) + "\n"
+
+
+def run_permissive(src):
+    """every import succeeds, every attribute exists: only unbound global names are observed (in order)"""
+    import importlib.abc
+    import importlib.machinery
+    import sys
+    import types
+
+    class V:
+        def __getattr__(s, n):
+            if n.startswith("__"):
+                raise AttributeError(n)
+            return V()
+
+    class VMod(types.ModuleType):
+        def __getattr__(s, n):
+            if n.startswith("__"):
+                raise AttributeError(n)
+            return V()
+
+    class Finder(importlib.abc.MetaPathFinder, importlib.abc.Loader):
+        def find_spec(self, name, path=None, target=None):
+            if name.split(".")[0] in F_NAMES:
+                return importlib.machinery.ModuleSpec(name, self, is_package=True)
+        def create_module(self, spec):
+            mod = VMod(spec.name)
+            mod.__path__ = []
+            return mod
+        def exec_module(self, module):
+            pass
+
+    unbound = []
+
+    class G(dict):
+        def __missing__(s, key):
+            import builtins
+            if key in builtins.__dict__:
+                raise KeyError(key)
+            unbound.append(key)
+            return V()
+
+    finder = Finder()
+    saved = set(sys.modules)
+    sys.meta_path.insert(0, finder)
+    try:
+        try:
+            exec(compile(src, "<p>", "exec"), G({"__name__": "prog"}))
+        except SyntaxError:
+            return None
+        except Exception as e:
+            return {"exc": type(e).__name__ + ": " + str(e)[:80]}
+        return {"unbound": unbound}
+    finally:
+        sys.meta_path.remove(finder)
+        for k in set(sys.modules) - saved:
+            del sys.modules[k]
+
+
+def c_dotted(d):
+    return "[" + "; ".join(cm.cN(F_ID[x]) for x in d) + "]"
+
+
+def c_flat_program(stmts):
+    out = []
+    for st in stmts:
+        ln = cm.cnat(st[1])
+        if st[0] == "import":
+            out.append("SImport %s [%s]" % (ln, "; ".join("(%s, %s)" % (c_dotted(d), cm.copt(a, lambda x: cm.cN(F_ID[x]))) for d, a in st[2])))
+        elif st[0] == "from":
+            out.append("SImportFrom %s %s [%s]" % (ln, c_dotted(st[2]), "; ".join("(%s, %s)" % (cm.cN(F_ID[x]), cm.copt(a, lambda y: cm.cN(F_ID[y]))) for x, a in st[3])))
+        else:
+            loads = st[3] if st[0] == "assign" else st[2]
+            e = "(EOp [%s])" % "; ".join("ELoad %s %s" % (cm.cN(F_ID[n]), c_dotted(at)) for n, at in loads)
+            out.append(("SAssign %s [TName %s] %s" % (ln, cm.cN(F_ID[st[2]]), e)) if st[0] == "assign" else "SExpr %s %s" % (ln, e))
+    return "[" + "; ".join(out) + "]"
 
 
 # ---------------------------------------------------------------------------------------------
@@ -121,7 +469,7 @@ def gen_cases(ctx, n):
 
 def impl_case(c):
     from pyflyby._importstmt import Import
-    m = dict((k, v) for k, v in c["map"])
+    m = dict((k, v) for k, v in c.get("map", []))
     if c["kind"] == "replace":
         imp = Import.from_parts(*c["imp"])
         for k, v in m.items():
@@ -169,6 +517,25 @@ def impl_case(c):
             S.SourceToSourceImportBlockTransformation.pretty_print = orig
         return {"blocks": blocks, "renders": renders, "out": out.text.joined, "wordchars": wordchars(c["src"]),
                 "order": order}
+    if c["kind"] == "flat":
+        import pyflyby._imports2s as S
+        from pyflyby._parse import PythonBlock
+        src = render_flat(c["stmts"])
+        try:
+            out = S.transform_imports(PythonBlock(src), {".".join(c["old"]): ".".join(c["new"])}).text.joined
+        except Exception as e:
+            return {"src": src, "out": None, "error": type(e).__name__}
+        return {"src": src, "out": out, "before": run_permissive(src), "after": run_permissive(out)}
+    if c["kind"] == "exec":
+        import pyflyby._imports2s as S
+        from pyflyby._parse import PythonBlock
+        before = run_aliased(c["src"], c["map"])
+        try:
+            out = S.transform_imports(PythonBlock(c["src"]), m).text.joined
+        except Exception as e:
+            return {"before": before, "out": None, "error": type(e).__name__ + ": " + str(e)[:100]}
+        after = run_aliased(out, c["map"])
+        return {"before": before, "out": out, "after": after}
     raise ValueError(c["kind"])
 
 
@@ -198,6 +565,11 @@ def model_exprs(cases, impl):
             w = cm.clist([cm.cN(ord(x)) for x in im["wordchars"]])
             exprs.append("run_text %s %s %s" % (w, c_map(c["map"]), cm.cstr(body)))
             index.append((ci, "text", None))
+        elif c["kind"] == "exec":
+            continue                                    # oracle only (the same pipeline is tied by the program kind)
+        elif c["kind"] == "flat":
+            exprs.append("run_rename_flat %s %s %s" % (c_dotted(c["old"]), c_dotted(c["new"]), c_flat_program(c["stmts"])))
+            index.append((ci, "flat", None))
         else:
             w = cm.clist([cm.cN(ord(x)) for x in im["wordchars"]])
             mp = c_map(im.get("order", c["map"]))
@@ -296,6 +668,55 @@ def oracle_text(text, out, m, wc):
     return None if s == out else "body substitution differs from the whole-word rule: %r vs %r" % (out, s)
 
 
+def root_of_old_read_outside_old(c):
+    """classifier of the known finding C18-a: the program has a plain `import P` with P at/under a dotted OLD, and
+    reads the root package of that OLD through a path that is not at/under that OLD"""
+    lines = c["src"].split("\n")
+    plains = [l.split()[1] for l in lines if l.startswith("import ") and " as " not in l]
+    body = "\n".join(l for l in lines if not l.startswith(("import ", "from ")))
+    for old, _new in c["map"]:
+        oc = old.split(".")
+        if len(oc) < 2 or not any(p_.split(".")[:len(oc)] == oc for p_ in plains):
+            continue
+        for m_ in re.finditer(r"(?<![\w.])%s((?:\.\w+)*)" % re.escape(oc[0]), body):
+            path = [oc[0]] + [x for x in m_.group(1).split(".") if x]
+            if path[:len(oc)] != oc:
+                return True
+    return False
+
+
+def oracle_exec(ctx, c, im):
+    """behaviour clause: a program that reaches OLD only through matching top-level imports, run where NEW denotes
+    the same objects as OLD, performs the same operations on the same objects and leaves the same values"""
+    b = im["before"]
+    if c.get("hazard"):
+        # outside the property's domain (DESIGN: domain note): recorded, never a violation
+        a = im.get("after")
+        same = a is not None and a["exc"] == b["exc"] and a["log"] == b["log"] and a["final"] == b["final"]
+        ctx.bump("exec:hazard_stream:" + ("same" if same else "differs"))
+        return None
+    if b["exc"] is not None:
+        ctx.bump("exec:discarded(original raises)")
+        return None
+    if im.get("out") is None:
+        return "transform_imports raised %s" % im.get("error")
+    a = im["after"]
+    ctx.bump("exec:in_domain")
+    if (a["exc"] or "").startswith("NameError") and root_of_old_read_outside_old(c):
+        ctx.known_hit("C18-a", "behaviour clause: a plain `import OLD[.x]` with a dotted OLD becomes `import NEW[.x]` and stops binding the "
+                               "root package of OLD; other references through that root (e.g. `pkg.k` next to `import pkg.sub`, or a "
+                               "reference rewritten by another entry for a shorter key) become unbound: %s" % a["exc"])
+        ctx.bump("known:C18-a")
+        return None
+    if a["exc"] is not None:
+        return "the renamed program raises %s; before: no exception.  output:\n%s" % (a["exc"], im["out"])
+    if a["log"] != b["log"]:
+        return "operations on imported objects differ: %r vs %r\noutput:\n%s" % (b["log"][:8], a["log"][:8], im["out"])
+    if a["final"] != b["final"]:
+        return "final values differ: %r vs %r\noutput:\n%s" % (b["final"], a["final"], im["out"])
+    return None
+
+
 # ---------------------------------------------------------------------------------------------
 
 def compare(ctx, cases, impl, exprs, index, model):
@@ -322,6 +743,30 @@ def compare(ctx, cases, impl, exprs, index, model):
                 ctx.violation("replace_iff_component_prefix", c, msg)
             nontriv = im["imp"] != c["imp"]
             ctx.bump("replace_changed" if nontriv else "replace_unchanged")
+        elif c["kind"] == "flat":
+            (_, _, mv), = per_case[ci]
+            names = {v: k for k, v in F_ID.items()}
+            if im.get("out") is None or im["after"] is None or "exc" in (im["after"] or {}) or "exc" in (im["before"] or {}):
+                ctx.bump("flat:output_not_runnable(C03 domain)")
+            else:
+                want_b = [names[x] for x in mv["unbound_before"]]
+                want_a = [names[x] for x in mv["unbound_after"]]
+                if im["before"]["unbound"] != want_b:
+                    ctx.disagreement("PySem vs CPython (unbound names of the program)", c, im["before"], want_b)
+                if im["after"]["unbound"] != want_a:
+                    ctx.disagreement("rename_program + PySem vs transform_imports + CPython (unbound names after the rename)",
+                                     c, {"out": im["out"], "unbound": im["after"]["unbound"]}, want_a)
+                if mv["in_domain"] and mv["trace_after"] != mv["renamed_trace"]:
+                    ctx.disagreement("model: behaviour_preserved_flat on an in-domain program", c, mv["renamed_trace"], mv["trace_after"])
+                ctx.bump("flat:in_domain" if mv["in_domain"] else "flat:outside_domain")
+                if not mv["in_domain"] and im["after"]["unbound"] != im["before"]["unbound"]:
+                    ctx.bump("flat:outside_domain:new_unbound_names")
+                nontriv = im["out"] != im["src"]
+        elif c["kind"] == "exec":
+            msg = oracle_exec(ctx, c, im)
+            if msg:
+                ctx.violation("behaviour_preserved", c, msg)
+            nontriv = im.get("out") is not None and im["before"]["exc"] is None and bool(im["before"]["log"])
         elif c["kind"] == "text":
             (_, _, mv), = per_case[ci]
             if mv != im["text"]:
@@ -372,9 +817,10 @@ def compare(ctx, cases, impl, exprs, index, model):
 
 def run(ctx):
     cm.check_anchors(ctx, ANCHORS)
-    n = (1500 if ctx.quick else 60000) * ctx.scale
+    n = (2500 if ctx.quick else 60000) * ctx.scale
     ctx.coverage["rule"] = ("cases from one seeded PRNG: 40% Import.replace chains, 40% body texts (10% with non-ASCII "
-                            "word/non-word neighbours), 20% whole modules through transform_imports; non-trivial = the "
+                            "word/non-word neighbours), 10% whole modules through transform_imports / canonicalize_imports, 10% programs executed "
+                            "before/after transform_imports under an aliasing import universe (2% of them in the hazard stream); non-trivial = the "
                             "implementation changed the import / text, or the module has an import block; distinct by hash of the case")
     ctx.assumptions += [
         "re's \\w on the non-ASCII characters of each text is an oracle argument (taken from the real engine on the run)",
